@@ -1,6 +1,6 @@
 (* one case per line:   <kind> <fixed 0|1> <progs> <schedule>
      progs    = thread programs separated by ';', ops separated by ',', op = letter:arg:arg
-                n:dst  p:dst:p  a:src:dst  r:src  w:src:wdst  u:w:dst  c:src:recv  f:p:src  v:src  s:a:b  t:src (State)
+                n:dst  p:dst:p  a:src:dst  r:src  w:src:wdst  u:w:dst  c:src:recv[:abn]  f:p:src  v:src  s:a:b  t:src (State)
      schedule = comma separated thread ids ("-" = empty): the step sequence the harness drove
                 the implementation through
    output:  <status> E:<events> R:<results per thread> H:<refs.calls.done.shut per hook> M:<enabled mask per step + final>
@@ -19,7 +19,8 @@ let parse_op (s : string) : op =
   | ["r"; a] -> ORelease (n (int_of_string a))
   | ["w"; a; d] -> OWeakRef (n (int_of_string a), n (int_of_string d))
   | ["u"; w; d] -> OWeakAdd (n (int_of_string w), n (int_of_string d))
-  | ["c"; a; r] -> OCall (n (int_of_string a), r = "1")
+  | ["c"; a; r] -> OCall (n (int_of_string a), r = "1", false)
+  | ["c"; a; r; abn] -> OCall (n (int_of_string a), r = "1", abn <> "0")
   | ["f"; p; a] -> OFulfill (n (int_of_string p), n (int_of_string a))
   | ["v"; a] -> OIsValid (n (int_of_string a))
   | ["s"; a; b] -> OIsSame (n (int_of_string a), n (int_of_string b))
